@@ -255,11 +255,11 @@ func (s *v6Square) rangeCandidates(run [2]int) [][2]int {
 	}
 	rowEnd := func(i int) int { return (i/W + 1) * W }
 	rowStart := func(i int) int { return (i / W) * W }
-	add(st, st+1)                            // one share, one row
-	add(st, en)                              // the whole run
-	add(rowStart(en-1), en)                  // the part in the last row
-	add(st, min(en, rowEnd(st)))             // the part in the first row
-	add(st+1, min(en, rowEnd(st+1)))         // starts one later, to the end of its row
+	add(st, st+1)                                    // one share, one row
+	add(st, en)                                      // the whole run
+	add(rowStart(en-1), en)                          // the part in the last row
+	add(st, min(en, rowEnd(st)))                     // the part in the first row
+	add(st+1, min(en, rowEnd(st+1)))                 // starts one later, to the end of its row
 	add(rowStart(en-1), max(rowStart(en-1)+1, en-1)) // last row, one share short
 	return out
 }
@@ -288,10 +288,10 @@ func (s *v6Square) rangeAlternates(f, t int) [][2]int {
 		}
 		out = append(out, [2]int{a, b})
 	}
-	add(f, run[1])   // longer: same start, to the end of the run
-	add(run[0], t)   // longer: from the start of the run
-	add(f+1, t+1)    // shifted
-	add(f, t-1)      // shorter
+	add(f, run[1]) // longer: same start, to the end of the run
+	add(run[0], t) // longer: from the start of the run
+	add(f+1, t+1)  // shifted
+	add(f, t-1)    // shorter
 	if len(out) > 3 {
 		out = out[:3]
 	}
@@ -585,6 +585,7 @@ var v6ShrexAnswers = []string{
 	"honest",
 	"other:0", "other:1", "other:2", // honest data for other coordinates of the same square
 	"othersq",   // honest data for the same coordinates of another square
+	"longsq",    // the same followed by its last message once more (one more share for a square): wrong AND too long
 	"trunc",     // OK + the first half of the honest payload
 	"truncmsg",  // OK + the honest payload without its last message (last share for a square)
 	"ext",       // OK + the honest payload + its last message once more (one more share for a square)
@@ -643,6 +644,14 @@ func (s *v6Square) buildTable(g *v6Gen) error {
 			}
 			if b, err := serve(s.Alt.EDS, key, v6GenHeight); err == nil && bytes.HasPrefix(b, okStatus) && !bytes.Equal(b, honest) {
 				t["othersq"] = b
+				op := b[len(okStatus):]
+				if key == "eds" {
+					if len(op) >= libshare.ShareSize {
+						t["longsq"] = v6Cat(b, op[len(op)-libshare.ShareSize:])
+					}
+				} else if fr, ok := v6Frames(op); ok && len(fr) > 0 {
+					t["longsq"] = v6Cat(b, fr[len(fr)-1])
+				}
 			}
 			if len(payload) > 1 {
 				t["trunc"] = v6Cat(okStatus, payload[:len(payload)/2])
